@@ -261,13 +261,21 @@ macro_rules! backend_impl {
                     Ok(Ok(())) => {}
                     _ => return None,
                 }
-                let mut rnx = CKKSPlaintextVecRnx::<f64>::alloc(ctx.n).ok()?;
-                rnx.decode_from_znx(&z).ok()?;
-                let m = ctx.n / 2;
-                let mut re = vec![0.0; m];
-                let mut im = vec![0.0; m];
-                ctx.encoder.decode_reim(&rnx, &mut re, &mut im).ok()?;
-                Some((re, im))
+                // decoding runs under overflow checks here: a plaintext whose integer does not fit the
+                // i64/i128 path wraps in the library (documented limb behaviour) and would abort the harness
+                let n = ctx.n;
+                let enc = &ctx.encoder;
+                std::panic::catch_unwind(std::panic::AssertUnwindSafe(|| {
+                    let mut rnx = CKKSPlaintextVecRnx::<f64>::alloc(n).ok()?;
+                    rnx.decode_from_znx(&z).ok()?;
+                    let m = n / 2;
+                    let mut re = vec![0.0; m];
+                    let mut im = vec![0.0; m];
+                    enc.decode_reim(&rnx, &mut re, &mut im).ok()?;
+                    Some((re, im))
+                }))
+                .ok()
+                .flatten()
             }
 
             fn nat(s: &str) -> usize {
